@@ -110,6 +110,19 @@ def pydict_contains(c, cont, o, item, node):
 
 
 prims.KIND_CONTAINS['pydict'] = pydict_contains
+
+_orig_pydict_setitem = prims.KIND_SETITEM['pydict']
+
+
+def pydict_setitem(c, recv, o, key, v, node):
+    if isinstance(key, VOpaque) and key.tag in ('klass', 'meta'):
+        # the process-wide cache of classes without resolver (_unresolvable)
+        c.event('class-cached-as-unresolvable', key)
+        return
+    return _orig_pydict_setitem(c, recv, o, key, v, node)
+
+
+prims.KIND_SETITEM['pydict'] = pydict_setitem
 prims.KIND_METHOD['unpickler'] = unpickler_method
 prims.KIND_METHOD['pickler'] = pickler_method
 prims.KIND_METHOD['bytesio'] = bytesio_method
@@ -156,16 +169,21 @@ class TryToResolveBody(Spec):
             if v.tag == 'instance' and name == '_p_resolveConflict':
                 i = cc.choose([True, True], 'has-resolver')
                 if i == 1:
+                    cc.event('class-offers-no-resolver')
                     raise RaiseSig(VExc('builtins:AttributeError'))
                 k = cc.ghost['cr']['klass']
 
                 def resolve(c2, args, kwargs, node2):
                     c2.event('resolve', tuple(args))
-                    j = c2.choose([True, True, True], 'resolver-outcome')
+                    j = c2.choose([True, True, True, True], 'resolver-outcome')
                     if j == 1:
                         raise RaiseSig(VExc(ConflictError))
                     if j == 2:
                         raise RaiseSig(VExc('builtins:RuntimeError'))
+                    if j == 3:
+                        # a resolver that fails with AttributeError (say, touching an attribute of a referenced
+                        # object, which is only a PersistentReference here) is a FAILING resolver, not a missing one
+                        raise RaiseSig(VExc('builtins:AttributeError'))
                     a = [x.t for x in args]
                     return opq(RESOLVE(k.t, a[0], a[1], a[2]), 'state')
                 return VFunc('spec', 'resolver', None, resolve)
@@ -244,6 +262,11 @@ class TryToResolveBody(Spec):
                                                         bytes_num(c, ser.items[1]) == os_))]
         return [Outcome('resolved', post=resolved),
                 Outcome('unresolvable', 'raise', ConflictError, post=failed)]
+
+    def at_exit(self, c, E, kind, val):
+        marked = [e for e in c.events if e[0] == 'class-cached-as-unresolvable']
+        return [('class-remembered-as-unresolvable-only-if-it-offers-no-resolver',
+                 not marked or any(e[0] == 'class-offers-no-resolver' for e in c.events))]
 
 
 # klass extraction helpers for the opaque meta (meta[0], meta[1])
